@@ -37,7 +37,8 @@ def run_program(prog: dict) -> list[dict]:
             B=tables.project(B),
             res=tables.project(res) if res is not None else tables.NOTAB,
             err=err,
-            groups=groups,
+            groups=list(groups),
+            groups2=list(groups.second) if getattr(groups, "second", None) is not None else list(groups),
         )
         events.append(dict(id=f"{prog['pid']}:{step}", op=op, A=preA, B=preB, out=out))
         if not err and res is not None and op["name"] != "peek":
@@ -189,7 +190,7 @@ def replay_file(path: str) -> int:
     A = tables.materialise(ev["A"])
     B = tables.materialise(ev["B"])
     res, err, groups = tables.execute(ev["op"], A, B)
-    out = dict(A=tables.project(A), B=tables.project(B), res=tables.project(res) if res is not None else tables.NOTAB, err=err, groups=groups)
+    out = dict(A=tables.project(A), B=tables.project(B), res=tables.project(res) if res is not None else tables.NOTAB, err=err, groups=list(groups), groups2=list(groups.second) if getattr(groups, "second", None) is not None else list(groups))
     e2 = dict(id="replay", op=ev["op"], A=ev["A"], B=ev["B"], out=out)
     _, verdict = engine.validate_trace("Trace_Tbl", [e2], tag="replay")
     print(json.dumps(dict(event=e2, verdict=verdict), indent=1))
